@@ -86,7 +86,7 @@ func rang(left, right string) (string, error) {
 	}
 
 	stripped := right[1 : len(right)-1]
-	rangeSlice := strings.Split(stripped, ",")
+	rangeSlice := splitBoundary(stripped)
 
 	if len(rangeSlice) != 2 {
 		return "", fmt.Errorf("the BETWEEN operator needs a two item list in the right hand side, have %s", right)
@@ -171,6 +171,24 @@ func rang(left, right string) (string, error) {
 			strings.Trim(rangeSlice[1], " "),
 		),
 		nil
+}
+
+// splitBoundary splits a serialized range boundary at the commas that are not inside a quoted string.
+func splitBoundary(in string) []string {
+	out := []string{}
+	start, quoted := 0, false
+	for i := 0; i < len(in); i++ {
+		switch in[i] {
+		case '\'':
+			quoted = !quoted
+		case ',':
+			if !quoted {
+				out = append(out, in[start:i])
+				start = i + 1
+			}
+		}
+	}
+	return append(out, in[start:])
 }
 
 func rangParam(left, right string, params []any) (string, error) {
